@@ -91,6 +91,7 @@ SPECIFIC = {
 }
 
 
+FLOW_PROPS_ = None
 FLOW_PROPS = {"C01", "C02", "C03", "C04", "C05", "C06", "C07", "C09", "C11", "C12", "C14", "C16", "C17", "C18"}
 
 
